@@ -315,6 +315,11 @@ func c14serial(rep *vh.Report, seed uint64, idx int) {
 		if r.Chance(1, 2) {
 			sf.mu.Lock()
 			sf.failN = 1 + r.Intn(4)
+			sf.slowFail = 0
+			if r.Chance(1, 2) {
+				sf.slowFail = c14reconnect * 3 / 2 // attempts that take longer to fail than the back-off lasts
+				rep.Count("serial_slow_failing_opens_scheduled", 1)
+			}
 			sf.mu.Unlock()
 			rep.Count("serial_failed_opens_scheduled", 1)
 		}
@@ -376,6 +381,21 @@ func c14serial(rep *vh.Report, seed uint64, idx int) {
 			}
 		}
 		ci++
+	}
+	// after a failed attempt the next one starts a whole reconnect period after the failure, however long the attempt took
+	sf.mu.Lock()
+	calls := append([]serialCall(nil), sf.calls...)
+	sf.mu.Unlock()
+	for i := 0; i+1 < len(calls); i++ {
+		if calls[i].ok || i == 0 {
+			continue // the first call is the probe open of Initialize
+		}
+		rep.Count("serial_retry_gaps_checked", 1)
+		if gap := calls[i+1].start.Sub(calls[i].end); gap < c14reconnect-2*time.Millisecond {
+			rep.Violation("ep=serial what=early-reconnect", fmt.Sprintf("after an open attempt that took %v to fail, the next attempt started %v later (reconnect period %v)",
+				calls[i].end.Sub(calls[i].start).Round(time.Millisecond), gap.Round(100*time.Microsecond), c14reconnect), nil)
+			break
+		}
 	}
 	rep.Eval(nFail)
 	rep.Count("serial_failures", nFail)
